@@ -2,7 +2,7 @@
    Model: Model/Alloc.v (exact transcription of alloc.go / freelist.go / region.go, validated against
    the implementation after every operation of random scripts). Region lists are read as sets of
    page ids (inl). Property theorems only. *)
-From VF Require Import Region Freelist Alloc RegionProofs AllocProofs TxAllocProofs MetaAllocProofs HistoryProofs.
+From VF Require Import Region Freelist Alloc RegionProofs AllocProofs TxAllocProofs MetaAllocProofs HistoryProofs OverflowProofs.
 From Coq Require Import Lia.
 
 (* Tx.Alloc / Tx.AllocN: every page handed out was free (in the data free list, or beyond the end of
@@ -201,3 +201,53 @@ Proof.
   - vm_compute in E1. injection E1 as <- <- <-. vm_compute in E2. injection E2 as _ _ <- <-. vm_compute in E3. injection E3 as <- <-.
     vm_compute in E4. injection E4 as <-. split; discriminate.
 Qed.
+
+(* ---- the overflow area (Tx option EnableOverflowArea) ----
+   When the data area cannot provide the pages the meta area needs, everything the data area has left is moved
+   (pages that were free: from its free list or from behind its end marker, below the limit) and the rest is
+   appended to the file: the pages [E, E + required) lie at or beyond both end markers, so they are in no list
+   and were never handed out. (Per operation; the invariant over whole histories, C04_history_invariant,
+   is proved for transactions without the overflow area.) *)
+Theorem C04_overflow_growth_takes_fresh_pages : forall a t count ok a' t',
+  DataInv a -> wff 2 (a_free (meta a)) ->
+  (forall id, inl id (fregions (a_free (meta a))) ->
+     ~ inl id (fregions (a_free (data a))) /\ id < a_end (meta a) /\ (id < a_end (data a) \/ maxPages a <= id)) ->
+  a_end (data a) <= a_end (meta a) ->
+  0 < maxPages a -> 0 < count < 2^32 -> data_avail a < count ->
+  try_grow a t count true = (ok, a', t') ->
+  let av := data_avail a in
+  let required := count - av in
+  exists regs E,
+    ok = true /\
+    count_pages regs = av /\ wfl 2 regs /\
+    (forall id, inl id regs -> inl id (fregions (a_free (data a))) \/ a_end (data a) <= id) /\
+    (forall id, inl id regs -> ~ inl id (fregions (a_free (data a'))) /\ id < a_end (data a')) /\
+    (forall id, inl id (fregions (a_free (data a'))) -> inl id (fregions (a_free (data a)))) /\
+    DataInv a' /\
+    a_end (meta a) <= E /\ a_end (data a') <= E /\ E <= Z.max (a_end (meta a)) (maxPages a) /\
+    a_end (data a') <= Z.max (a_end (data a)) (maxPages a) /\
+    a_end (meta a') = E + required /\ 0 < required /\
+    wff 2 (a_free (meta a')) /\
+    (forall id, inl id (fregions (a_free (meta a'))) <->
+       inl id (fregions (a_free (meta a))) \/ inl id regs \/ E <= id < E + required) /\
+    metaTotal a' = metaTotal a + count /\
+    moveToMeta t' = moveToMeta t ++ regs /\
+    st_ovf_alloc t' = st_ovf_alloc t + required /\
+    maxPages a' = maxPages a /\
+    (exists regs1 regs2, regs = regs1 ++ regs2 /\ wfl 2 regs1 /\
+       (forall id, inl id regs1 <-> inl id (fregions (a_free (data a))) /\ ~ inl id (fregions (a_free (data a')))) /\
+       (forall id, inl id regs2 -> a_end (data a) <= id) /\
+       t_allocated (tdata t') = set_add_all (regions_ids regs1) (t_allocated (tdata t))) /\
+    t_end (tdata t') = t_end (tdata t) /\ t_end (tmeta t') = t_end (tmeta t) /\
+    t_allocated (tmeta t') = t_allocated (tmeta t) /\
+    pageSize a' = pageSize a /\ flRoot a' = flRoot a /\ flPages a' = flPages a.
+Proof. exact try_grow_overflow_spec. Qed.
+Print Assumptions C04_overflow_growth_takes_fresh_pages.
+
+Example C04_ex_overflow :
+  data_avail ovf_ex = 6 /\
+  (let '(ok, a, t) := try_grow ovf_ex (make_tx ovf_ex true 0) 10 true in
+   ok = true /\ a_end (meta a) = 68 /\ a_end (data a) = 64 /\ metaTotal a = 14 /\ st_ovf_alloc t = 4 /\
+   fregions (a_free (meta a)) = [{| rid := 5; rcount := 1 |}; {| rid := 10; rcount := 2 |}; {| rid := 60; rcount := 8 |}] /\
+   rollback a t = ovf_ex).
+Proof. exact ovf_ex_grow_and_rollback. Qed.
